@@ -183,9 +183,16 @@ Definition sqlstate_table (code : list Z) : klass :=
   if starts_with s28 code then AUTH else
   if zlist_eqb code s42000 || zlist_eqb code s42P01 then PERMANENT else UNKNOWN.
 
+(** CPython refuses str() of an int with more than 4300 digits (ValueError, sys.get_int_max_str_digits()); both
+    classifiers then see no code at all, which the empty text stands for ([sqlstate_table []] is UNKNOWN) *)
+Definition str_limit : Z := 10 ^ 4300.
+Definition str_refused (v : pyval) : bool :=
+  match pv_kind v with VInt z => str_limit <=? Z.abs z | _ => false end.
+Definition py_str (v : pyval) : str := if str_refused v then [] else pv_text v.
+
 (** sqlstate = getattr(exc, "sqlstate", None) or _extract_sqlstate(args): the text of str(sqlstate) *)
 Definition sqlstate_text (search : str -> option str) (e : pyexc) : option str :=
-  if truthy (e_sqlstate e) then Some (pv_text (e_sqlstate e)) else extract search (e_args e).
+  if truthy (e_sqlstate e) then Some (py_str (e_sqlstate e)) else extract search (e_args e).
 
 Definition sqlstate_classifier (e : pyexc) : klass :=
   match sqlstate_text (search_sqlstate false) e with
